@@ -133,7 +133,15 @@ func corruptFasta(t *rapid.T, recs []FaRec, kind string) (content string, where 
 		if len(b) == 0 {
 			return "", "", false
 		}
-		b[rapid.IntRange(0, len(b)-1).Draw(t, "badPos")] = rapid.SampledFrom([]byte{'!', 'X', 'U', '*', '.', 'Z', '0'}).Draw(t, "badSym")
+		// first and last column get extra weight: line/record boundaries are where scanners special-case
+		bp := rapid.IntRange(0, len(b)-1).Draw(t, "badPos")
+		switch rapid.IntRange(0, 3).Draw(t, "badPosKind") {
+		case 0:
+			bp = 0
+		case 1:
+			bp = len(b) - 1
+		}
+		b[bp] = rapid.SampledFrom([]byte{'!', 'X', 'U', '*', '.', 'Z', '0'}).Draw(t, "badSym")
 		rs[i].Seq = string(b)
 	case "empty-file":
 		return "", "file", true
